@@ -217,8 +217,8 @@ theorem compareParsed_run {env : Pipe.Env} {ref l10n : List Pipe.PEnt} {obs0 obs
 
 /-- THE CONTRACT HOLDS FOR THE COMPOSED MODEL: `compareBodyOf` (the pipeline model of C05 behind the two `readFile`
     try-blocks) only ever raises events for the two files of the call, never a file notification, never `errors` stats -/
-theorem compareBodyOf_runs (cs : List (Path × ProjPipe.Content)) (md : List (Path × Text)) (c : Call) (junk : Nat)
-    (l : ObsList) (r : ObsList × List Text × Nat) (h : ProjPipe.compareBodyOf cs md c junk l = .ok r) :
+theorem compareBodyOf_runs (ext : Pipe.Ext) (cs : List (Path × ProjPipe.Content)) (md : List (Path × Text)) (c : Call)
+    (junk : Nat) (l : ObsList) (r : ObsList × List Text × Nat) (h : ProjPipe.compareBodyOf ext cs md c junk l = .ok r) :
     ∃ evs, l.run evs = .ok r.1 ∧ (∀ ev ∈ evs, (ev.file = c.l10n ∨ ev.file = c.ref) ∧ isFileEv ev = false) ∧
       NoErrStats evs := by
   have one : ∀ (f : File) (msg : Text) (l' : ObsList) (rv : Ret), (f = c.l10n ∨ f = c.ref) →
@@ -274,10 +274,11 @@ theorem compareBodyOf_runs (cs : List (Path × ProjPipe.Content)) (md : List (Pa
                   · injection h with h; subst h
                     exact ⟨evs, e1, hfiles, e3⟩
 
-/-- every world built by `ProjPipe.worldOf` (what the driver operation `c10.handle` runs) keeps the contract -/
-theorem worldOf_compareRuns (cwd : Path) (enums : List (Option Text × Except ProjM.PyErr Files)) (existing : List Path)
-    (md : List (Path × Text)) (cs : List (Path × ProjPipe.Content)) :
-    CompareRuns (ProjPipe.worldOf cwd enums existing md cs) :=
-  fun c junk l r h => compareBodyOf_runs cs md c junk l r h
+/-- every world built by `ProjPipe.worldOf` (what the driver operation `c10.handle` runs) keeps the contract, whatever
+    the external functions `ext` of the pipeline model are -/
+theorem worldOf_compareRuns (ext : Pipe.Ext) (cwd : Path) (enums : List (Option Text × Except ProjM.PyErr Files))
+    (existing : List Path) (md : List (Path × Text)) (cs : List (Path × ProjPipe.Content)) :
+    CompareRuns (ProjPipe.worldOf ext cwd enums existing md cs) :=
+  fun c junk l r h => compareBodyOf_runs ext cs md c junk l r h
 
 end C10P
